@@ -1805,10 +1805,12 @@ def search(seed):
     return None
 
 
+import c02t2      # noqa: E402  (needs the definitions above)
+
 PROPERTY = Property(
     pid="C02",
     streams=[CorpusStream(), textcorr.FindTagStream(), textcorr.CSearchStream(), textcorr.ExtractStream(), SmallEnumStream(), GridStream(), TheoremStream(), TextTieStream(), InfoLinesStream(), BlockLinesStream(),
-             LintStream(), WindowStream(), SnippetFileStream(), NotationStream(), ParseErrorStream(), DecodeStream()],
+             LintStream(), WindowStream(), SnippetFileStream(), NotationStream(), ParseErrorStream(), DecodeStream()] + c02t2.STREAMS,
     assumptions=[
         "CPython's re engine on the tag patterns (`^(.*?)TAG[ \\t]+(.*?)END$`, MULTILINE, findall) and on the three copyright patterns is "
         "mirrored by Model.findSpdxTagWith / Model.searchLineWith over the END pattern generated from the source, and compared on every run",
